@@ -54,7 +54,7 @@ def plan(tier, seed):
     nmax = 5 if tier == "quick" else 7
     nmaps = len(MAPS)
     lays = (0, 1, 2, 3, 4, 5, 6)
-    shards = [("grid", mi, n, lay) for mi in range(nmaps) for n in range(1, nmax + 1) for lay in lays] + [("absent",), ("many",)] + [("meta", k) for k in range(len(SONGS))] + [("far",)]
+    shards = [("grid", mi, n, lay) for mi in range(nmaps) for n in range(1, nmax + 1) for lay in lays] + [("absent",), ("many",), ("siblings",)] + [("meta", k) for k in range(len(SONGS))] + [("far",)]
     return dict(shards=shards, bounds=dict(max_notes=nmax, tick_alphabet=list(TICKS), maps=[list(map(list, m)) for m in MAPS[:nmaps]], sustain_layouts=len(lays)), budget_s=600)
 
 
@@ -113,6 +113,39 @@ def run_shard(shard, ctx):
         for track, what in ((("BASS", "EXPERT"), "absent instrument"), (("GUITAR", "MEDIUM"), "absent difficulty"), (("GUITAR", "HARD"), "note-less track"), (("DRUMS", "EASY"), "absent instrument")):
             for args in forms:
                 check(ctx, c, text, track, args, "ValueError", what)
+        return
+    if shard[0] == "siblings":
+        # several tracks in one chart - other difficulties of the SAME instrument and other instruments, ending earlier
+        # and later than the chosen track, one of them note-less: "the chosen track" means that track alone
+        H = {"ExpertSingle": ("GUITAR", "EXPERT"), "HardSingle": ("GUITAR", "HARD"), "MediumSingle": ("GUITAR", "MEDIUM"), "EasySingle": ("GUITAR", "EASY"), "ExpertDoubleBass": ("BASS", "EXPERT"), "HardDoubleBass": ("BASS", "HARD")}
+        layouts = (
+            dict(ExpertSingle=[(0, 0), (10, 0), (50, 3)], HardSingle=[(0, 0), (99, 0), (130, 40)], MediumSingle=[(10, 0)], EasySingle=[], ExpertDoubleBass=[(0, 0), (300, 0)], HardDoubleBass=[(51, 9)]),
+            dict(ExpertSingle=[(0, 200), (10, 0)], HardSingle=[(100, 0)], MediumSingle=[(0, 0), (1, 0), (2, 0)], ExpertDoubleBass=[(130, 0)]),
+            dict(HardSingle=[(50, 0), (51, 0)], ExpertSingle=[(50, 0), (51, 1)], EasySingle=[(50, 0), (51, 2)], MediumSingle=[(50, 0), (52, 0)]),
+        )
+        for mi in (0, 2, 4):
+            tempo = ((0, 120000),) + MAPS[mi % len(MAPS)]
+            sync = ["0 = TS 4"] + ["%d = B %d" % x for x in tempo]
+            for lay in layouts:
+                for order in (list(lay), list(lay)[::-1]):
+                    ctx.node()
+                    tracks = [(h, ["%d = N %d %d" % (t, i % 5, s_) for i, (t, s_) in enumerate(lay[h])]) for h in order]
+                    text = mk(res=100, sync=sync, tracks=tracks)
+                    c = impl.parse(text)
+                    q = lambda t: impl.query(c, t)  # noqa: E731
+                    for h in order:
+                        notes = lay[h]
+                        what = "chart with tracks %r, chosen [%s]" % ({k: lay[k] for k in order}, h)
+                        if not notes:
+                            for args in ([], [["tick", 0]], [["us", 0]]):
+                                check(ctx, c, text, H[h], args, "ValueError", what)
+                            continue
+                        nt = [q(t) for t, _ in notes]
+                        lne = max(q(t + s_) for t, s_ in notes)
+                        check(ctx, c, text, H[h], [], oracle(nt, 0, lne), what)
+                        for s in sorted({0, 1} | {t + d for t, _ in notes for d in (0, 1)} | {t for k in order for t, _ in lay[k]}):
+                            check(ctx, c, text, H[h], [["tick", s]], oracle(nt, q(s), lne), what)
+                            check(ctx, c, text, H[h], [["us", q(s)]], oracle(nt, q(s), lne), what)
         return
     if shard[0] == "many":
         # a track of 700 notes (thresholds on the number of notes), bounds on / next to notes everywhere
